@@ -1,0 +1,185 @@
+//go:build verif
+
+// Contracts for package imapserver, checked by /verif/govc (see
+// /verif/DESIGN.md). Only compiled with the build tag "verif".
+
+package imapserver
+
+// ---------------------------------------------------------------------------
+// C07: sequence-number translation. Ghost specification over a queue value.
+
+// stepDec: effect of one pending update on a client-view sequence number
+// (0 = message does not exist on the server side).
+//
+//@ pure
+func stepDec(u trackerUpdate, x uint32) uint32 {
+	if u.expunge == 0 || x == 0 {
+		return x
+	}
+	if x == u.expunge {
+		return 0
+	}
+	if x > u.expunge {
+		return x - 1
+	}
+	return x
+}
+
+// decFrom: apply the updates q[i:] in order (client view i -> server view).
+//
+//@ pure
+//@ decreases len(q) - i
+func decFrom(q []trackerUpdate, i int, x uint32) uint32 {
+	if i < 0 || i >= len(q) || x == 0 {
+		return x
+	}
+	return decFrom(q, i+1, stepDec(q[i], x))
+}
+
+//@ func (t *SessionTracker) DecodeSeqNum(seqNum uint32) (result uint32)
+//@   props C07
+//@   fuel 2
+//@   requires t != nil && t.mailbox != nil
+//@   ensures decFrom(t.queue, 0, seqNum) > t.mailbox.numMessages ==> result == 0
+//@   ensures decFrom(t.queue, 0, seqNum) <= t.mailbox.numMessages ==> result == decFrom(t.queue, 0, seqNum)
+//@   loop 0 vars (cur uint32, i int)
+//@   loop 0 invariant -1 <= i && i < len(t.queue) || (i == -1 && len(t.queue) == 0)
+//@   loop 0 invariant cur != 0 && decFrom(t.queue, i+1, cur) == decFrom(t.queue, 0, seqNum)
+//@   loop 0 decreases len(t.queue) - i
+
+// stepEnc: effect of one pending update, read backwards, on a server-view
+// sequence number (0 = message does not exist on the client side).
+//
+//@ pure
+func stepEnc(u trackerUpdate, y uint32) uint32 {
+	if y == 0 {
+		return 0
+	}
+	if u.numMessages != 0 && y > u.prevNumMessages {
+		return 0 // added by this EXISTS: unknown to the client
+	}
+	if u.expunge != 0 && y >= u.expunge {
+		return y + 1
+	}
+	return y
+}
+
+// encAcc: apply q[k], q[k-1], ..., q[0] backwards (server view -> client view).
+//
+//@ pure
+//@ decreases k + 1
+func encAcc(q []trackerUpdate, k int, y uint32) uint32 {
+	if k < 0 || k >= len(q) || y == 0 {
+		return y
+	}
+	return encAcc(q, k-1, stepEnc(q[k], y))
+}
+
+// wfUpdate: an update is well formed for a mailbox of cnt messages.
+//
+//@ pure
+func wfUpdate(u trackerUpdate, cnt uint32) bool {
+	if u.expunge != 0 {
+		return u.numMessages == 0 && u.expunge <= cnt
+	}
+	if u.numMessages != 0 {
+		return u.prevNumMessages == cnt && u.numMessages >= cnt
+	}
+	return true
+}
+
+// cntAfter: the message count after applying u to a mailbox of cnt messages.
+//
+//@ pure
+func cntAfter(u trackerUpdate, cnt uint32) uint32 {
+	if u.expunge != 0 {
+		return cnt - 1
+	}
+	if u.numMessages != 0 {
+		return u.numMessages
+	}
+	return cnt
+}
+
+// Per-update meaning of the two translations (the property's statement for a
+// single update): on a mailbox of cnt messages, for every client-view number x
+// in 1..cnt, decoding yields zero exactly when x is the expunged message, and
+// otherwise a server-view number that encodes back to x; for every
+// server-view number y in 1..cntAfter, encoding yields zero exactly when y
+// was added by the update, and otherwise a client-view number that decodes
+// back to y.
+//
+//@ lemma
+//@ props C07
+//@ requires wfUpdate(u, cnt) && 1 <= x && x <= cnt
+//@ ensures (stepDec(u, x) == 0) == (u.expunge != 0 && x == u.expunge)
+//@ ensures stepDec(u, x) != 0 ==> 1 <= stepDec(u, x) && stepDec(u, x) <= cntAfter(u, cnt) && stepEnc(u, stepDec(u, x)) == x
+func lemmaStepDecEnc(u trackerUpdate, cnt uint32, x uint32) {}
+
+//@ lemma
+//@ props C07
+//@ requires wfUpdate(u, cnt) && 1 <= y && y <= cntAfter(u, cnt) && (u.expunge == 0 || cnt < 4294967295)
+//@ ensures (stepEnc(u, y) == 0) == (u.numMessages != 0 && y > cnt)
+//@ ensures stepEnc(u, y) != 0 ==> 1 <= stepEnc(u, y) && stepEnc(u, y) <= cnt && stepDec(u, stepEnc(u, y)) == y
+func lemmaStepEncDec(u trackerUpdate, cnt uint32, y uint32) {}
+
+// Backward well-formedness of a queue with respect to the mailbox count c
+// *after* all updates: every expunge refers to a message that existed at its
+// point, every EXISTS records the count before it. This is the tracker's
+// representation invariant between a session queue and MailboxTracker.numMessages.
+
+//@ pure
+func okBack(u trackerUpdate, c uint32) bool {
+	if u.expunge != 0 {
+		return u.numMessages == 0 && c < 4294967295 && u.expunge <= c+1
+	}
+	if u.numMessages != 0 {
+		return u.numMessages == c && u.prevNumMessages <= c
+	}
+	return true
+}
+
+//@ pure
+func cntBefore(u trackerUpdate, c uint32) uint32 {
+	if u.expunge != 0 {
+		return c + 1
+	}
+	if u.numMessages != 0 {
+		return u.prevNumMessages
+	}
+	return c
+}
+
+// cntAtBack: the message count just before q[j] (= after q[j-1]), computed
+// backwards from the final count c.
+//
+//@ pure
+//@ decreases len(q) - j
+func cntAtBack(q []trackerUpdate, j int, c uint32) uint32 {
+	if j < 0 || j >= len(q) {
+		return c
+	}
+	return cntBefore(q[j], cntAtBack(q, j+1, c))
+}
+
+//@ pure
+//@ decreases k + 1
+func wfBack(q []trackerUpdate, k int, c uint32) bool {
+	if k < 0 || k >= len(q) {
+		return true
+	}
+	return okBack(q[k], c) && wfBack(q, k-1, cntBefore(q[k], c))
+}
+
+//@ func (t *SessionTracker) EncodeSeqNum(seqNum uint32) (result uint32)
+//@   props C07
+//@   fuel 2
+//@   requires t != nil && t.mailbox != nil
+//@   requires wfBack(t.queue, len(t.queue)-1, t.mailbox.numMessages)
+//@   ensures seqNum > t.mailbox.numMessages ==> result == 0
+//@   ensures seqNum <= t.mailbox.numMessages ==> result == encAcc(t.queue, len(t.queue)-1, seqNum)
+//@   loop 0 vars (cur uint32, i int)
+//@   loop 0 invariant -1 <= i && i < len(t.queue)
+//@   loop 0 invariant cur != 0 && seqNum != 0 && seqNum <= t.mailbox.numMessages && encAcc(t.queue, i, cur) == encAcc(t.queue, len(t.queue)-1, seqNum)
+//@   loop 0 invariant cur <= cntAtBack(t.queue, i+1, t.mailbox.numMessages) && wfBack(t.queue, i, cntAtBack(t.queue, i+1, t.mailbox.numMessages))
+//@   loop 0 decreases i + 1
